@@ -1,5 +1,6 @@
 import OasisModel.NodeDB.Spec
 import OasisModel.NodeDB.Badger
+import OasisModel.NodeDB.Pruner
 /-
 C06 — finalized storage versions stay fully readable until pruned (PARTIAL).
 
@@ -367,5 +368,577 @@ theorem spec_no_false_root (ops : List Op) (r : Root) (c : Contents)
     exact ⟨o, by simpa [hp, h] using ho⟩
 
 end SpecThms
+
+/-! ## Part B — the badger bookkeeping model -/
+section BadgerThms
+open Badger
+
+/-! ### MVCC lemmas -/
+
+theorem at_write (m : MV) (k w : Nat) (b : Bool) (k' t : Nat) :
+    (m.write k w b).at k' t = if k = k' ∧ w = t then some b else m.at k' t := by
+  simp [MV.write, MV.at]
+
+theorem live_zero (m : MV) (k : Nat) : m.live k 0 = (m.at k 0 == some true) := by
+  unfold MV.live MV.get
+  cases h : m.at k 0 with
+  | none => simp
+  | some b => cases b <;> simp
+
+theorem live_succ (m : MV) (k t : Nat) :
+    m.live k (t + 1) = (match m.at k (t + 1) with | some b => b | none => m.live k t) := by
+  unfold MV.live
+  simp only [MV.get]
+  cases h : m.at k (t + 1) with
+  | none => simp
+  | some b => cases b <;> simp
+
+theorem get_write_frame (m : MV) (k w : Nat) (b : Bool) (k' t : Nat) (h : k ≠ k' ∨ t < w) :
+    (m.write k w b).get k' t = m.get k' t := by
+  induction t with
+  | zero =>
+    have : ¬(k = k' ∧ w = 0) := by omega
+    simp [MV.get, at_write, this]
+  | succ t ih =>
+    have h1 : ¬(k = k' ∧ w = t + 1) := by omega
+    have h2 : k ≠ k' ∨ t < w := by omega
+    simp [MV.get, at_write, h1, ih h2]
+
+theorem get_writeAll_lt (m : MV) (ks : List Nat) (w : Nat) (b : Bool) (k' t : Nat) (h : t < w) :
+    (m.writeAll ks w b).get k' t = m.get k' t := by
+  induction ks generalizing m with
+  | nil => rfl
+  | cons a ks ih =>
+    simp only [MV.writeAll, List.foldl] at ih ⊢
+    rw [ih]
+    exact get_write_frame m a w b k' t (Or.inr h)
+
+theorem get_writeAll_notin (m : MV) (ks : List Nat) (w : Nat) (b : Bool) (k' t : Nat) (h : k' ∉ ks) :
+    (m.writeAll ks w b).get k' t = m.get k' t := by
+  induction ks generalizing m with
+  | nil => rfl
+  | cons a ks ih =>
+    simp only [MV.writeAll, List.foldl] at ih ⊢
+    have ha : a ≠ k' := fun e => h (by simp [e])
+    rw [ih _ (fun hm => h (List.mem_cons_of_mem _ hm))]
+    exact get_write_frame m a w b k' t (Or.inl ha)
+
+theorem live_congr_get (m m' : MV) (k t : Nat) (h : m'.get k t = m.get k t) : m'.live k t = m.live k t := by
+  unfold MV.live; rw [h]
+
+/-- A value write never makes a key invisible. -/
+theorem live_write_true_mono (m : MV) (k w k' t : Nat) (h : m.live k' t = true) :
+    (m.write k w true).live k' t = true := by
+  induction t with
+  | zero =>
+    rw [live_zero] at h ⊢
+    rw [at_write]
+    by_cases hc : k = k' ∧ w = 0
+    · simp [hc]
+    · simp only [hc, if_false]; exact h
+  | succ t ih =>
+    rw [live_succ] at h ⊢
+    rw [at_write]
+    by_cases hc : k = k' ∧ w = t + 1
+    · simp [hc]
+    · simp only [hc, if_false]
+      cases hat : m.at k' (t + 1) with
+      | none => rw [hat] at h; simp only at h ⊢; exact ih h
+      | some b => rw [hat] at h; simpa using h
+
+theorem live_writeAll_true_mono (m : MV) (ks : List Nat) (w k' t : Nat) (h : m.live k' t = true) :
+    (m.writeAll ks w true).live k' t = true := by
+  induction ks generalizing m with
+  | nil => exact h
+  | cons a ks ih =>
+    simp only [MV.writeAll, List.foldl] at ih ⊢
+    exact ih _ (live_write_true_mono m a w k' t h)
+
+/-- The key just written is visible at the write's own timestamp. -/
+theorem live_write_true_self (m : MV) (k w : Nat) : (m.write k w true).live k w = true := by
+  cases w with
+  | zero => rw [live_zero, at_write]; simp
+  | succ w => rw [live_succ, at_write]; simp
+
+theorem live_writeAll_true_mem (m : MV) (ks : List Nat) (w k : Nat) (h : k ∈ ks) :
+    (m.writeAll ks w true).live k w = true := by
+  induction ks generalizing m with
+  | nil => simp at h
+  | cons a ks ih =>
+    simp only [MV.writeAll, List.foldl] at ih ⊢
+    rcases List.mem_cons.1 h with rfl | h
+    · exact live_writeAll_true_mono _ ks w k w (live_write_true_self m k w)
+    · exact ih _ h
+
+/-- Visibility at the timestamp at which a tombstone is written. -/
+theorem live_write_false_at (m : MV) (k v k' : Nat) :
+    (m.write k v false).live k' v = (if k = k' then false else m.live k' v) := by
+  cases v with
+  | zero =>
+    rw [live_zero, live_zero, at_write]
+    by_cases hk : k = k' <;> simp [hk]
+  | succ v =>
+    rw [live_succ, live_succ, at_write]
+    by_cases hk : k = k'
+    · simp [hk]
+    · simp only [hk, false_and, if_false]
+      cases hat : m.at k' (v + 1) with
+      | some b => rfl
+      | none =>
+        simp only
+        exact live_congr_get _ _ _ _ (get_write_frame m k (v + 1) false k' v (Or.inl hk))
+
+theorem live_writeAll_false_at (m : MV) (ks : List Nat) (v k' : Nat) :
+    (m.writeAll ks v false).live k' v = (if k' ∈ ks then false else m.live k' v) := by
+  induction ks generalizing m with
+  | nil => simp [MV.writeAll]
+  | cons a ks ih =>
+    simp only [MV.writeAll, List.foldl] at ih ⊢
+    rw [ih, live_write_false_at]
+    by_cases h1 : k' ∈ ks
+    · simp [h1]
+    · by_cases h2 : a = k'
+      · simp [h2]
+      · have : ¬ k' = a := fun e => h2 e.symm
+        simp [h1, h2, this]
+
+/-! ### inversion -/
+
+theorem bcommit_ok_inv {s s' : St} {o n : Root} {a r : List Nat} (h : commit s o n a r = .ok s') :
+    s' = (if hasKey (s.rmeta n.ver) (n.typ, n.hash) then s else commitSt s o n a r) := by
+  unfold commit at h
+  split at h
+  · simp at h
+  · exact (Except.ok.inj h).symm
+
+theorem bfinalize_ok_inv {s s' : St} {v : Nat} {ch : List Root} (h : finalize s v ch = .ok s') :
+    finalizeErr s v ch = none ∧ s' = finalizeSt s v ch := by
+  unfold finalize at h
+  split at h
+  · simp at h
+  · rename_i he; exact ⟨he, (Except.ok.inj h).symm⟩
+
+theorem bprune_ok_inv {cl clv : Nat → List Nat} {s s' : St} {v : Nat} (h : prune cl clv s v = .ok s') :
+    pruneErr cl clv s v = none ∧ s' = pruneSt clv s v := by
+  unfold prune at h
+  split at h
+  · simp at h
+  · rename_i he; exact ⟨he, (Except.ok.inj h).symm⟩
+
+theorem bpruneErr_none {cl clv : Nat → List Nat} {s : St} {v : Nat} (h : pruneErr cl clv s v = none) :
+    (∃ l, s.last = some l ∧ v < l) ∧ v = s.earliest ∧ visitFails cl clv s v = false := by
+  unfold pruneErr at h
+  cases hl : s.last with
+  | none => simp [hl] at h
+  | some l =>
+    simp only [hl] at h
+    by_cases h1 : l < v
+    · simp [h1] at h
+    · simp only [h1] at h
+      by_cases h2 : (v != s.earliest) = true
+      · simp [h2] at h
+      · simp only [h2] at h
+        by_cases h3 : (v == l) = true
+        · simp [h3] at h
+        · simp only [h3] at h
+          by_cases h4 : visitFails cl clv s v = true
+          · simp [h4] at h
+          · refine ⟨⟨l, rfl, ?_⟩, by simpa using h2, by simpa using h4⟩
+            simp at h3; omega
+
+/-! ### frame: every operation writes only at its own version's timestamp
+
+Hence what is committed, finalized or pruned at version `w` cannot change what a reader of an
+earlier version `t < w` sees ("no matter what is committed and finalized later"). -/
+
+theorem badger_commit_frame {s s' : St} {o n : Root} {a r : List Nat} (h : commit s o n a r = .ok s')
+    (k t : Nat) (ht : t < n.ver) :
+    s'.node.get k t = s.node.get k t ∧ s'.rootNode.get k t = s.rootNode.get k t := by
+  rw [bcommit_ok_inv h]
+  split
+  · exact ⟨rfl, rfl⟩
+  · exact ⟨get_writeAll_lt _ _ _ _ _ _ ht, get_write_frame _ _ _ _ _ _ (Or.inr ht)⟩
+
+theorem badger_finalize_frame {s s' : St} {v : Nat} {ch : List Root} (h : finalize s v ch = .ok s')
+    (k t : Nat) (ht : t < v) :
+    s'.node.get k t = s.node.get k t ∧ s'.rootNode.get k t = s.rootNode.get k t := by
+  rw [(bfinalize_ok_inv h).2]
+  exact ⟨get_writeAll_lt _ _ _ _ _ _ ht, rfl⟩
+
+theorem badger_prune_frame {cl clv : Nat → List Nat} {s s' : St} {v : Nat} (h : prune cl clv s v = .ok s')
+    (k t : Nat) (ht : t < v) :
+    s'.node.get k t = s.node.get k t ∧ s'.rootNode.get k t = s.rootNode.get k t := by
+  rw [(bprune_ok_inv h).2]
+  exact ⟨get_writeAll_lt _ _ _ _ _ _ ht, get_writeAll_lt _ _ _ _ _ _ ht⟩
+
+theorem readable_congr (cl : Nat → List Nat) (s s' : St) (r : Root)
+    (he : s'.earliest = s.earliest)
+    (hn : ∀ k, s'.node.get k r.ver = s.node.get k r.ver)
+    (hr : ∀ k, s'.rootNode.get k r.ver = s.rootNode.get k r.ver) :
+    readable cl s' r = readable cl s r := by
+  unfold readable nodeVisible
+  congr 1
+  apply List.all_congr rfl
+  intro h
+  rw [he, live_congr_get _ _ _ _ (hn h), live_congr_get _ _ _ _ (hr _)]
+
+/-- **A later commit never affects the readability of a root of an earlier version.** -/
+theorem later_commit_preserves_readable (cl : Nat → List Nat) {s s' : St} {o n : Root} {a rm : List Nat}
+    (h : commit s o n a rm = .ok s') (r : Root) (hr : r.ver < n.ver) :
+    readable cl s' r = readable cl s r := by
+  apply readable_congr
+  · rw [bcommit_ok_inv h]; split <;> rfl
+  · intro k; exact (badger_commit_frame h k _ hr).1
+  · intro k; exact (badger_commit_frame h k _ hr).2
+
+/-- **A later finalization never affects the readability of a root of an earlier version**
+(whatever candidates it discards). -/
+theorem later_finalize_preserves_readable (cl : Nat → List Nat) {s s' : St} {v : Nat} {ch : List Root}
+    (h : finalize s v ch = .ok s') (hl : s.last.isNone = false) (r : Root) (hr : r.ver < v) :
+    readable cl s' r = readable cl s r := by
+  apply readable_congr
+  · rw [(bfinalize_ok_inv h).2]; simp [finalizeSt, hl]
+  · intro k; exact (badger_finalize_frame h k _ hr).1
+  · intro k; exact (badger_finalize_frame h k _ hr).2
+
+/-! ### exact effect of Finalize on the roots of its own version -/
+
+theorem all_and {α : Type} (l : List α) (f g : α → Bool) :
+    l.all (fun x => f x && g x) = (l.all f && l.all g) := by
+  induction l with
+  | nil => rfl
+  | cons a t ih =>
+    simp only [List.all_cons, ih]
+    cases f a <;> cases g a <;> simp
+
+/-- After `Finalize(v)` a root of version `v` is readable iff it was readable before and none of
+its nodes is among the deleted "lone" nodes (`maybeLone \ notLone`). This is the exact semantics
+of the lone-node rule; `finalize_can_destroy_finalized_root` shows the right-hand side can fail
+for the very root that was finalized. -/
+theorem finalize_readable_iff (cl : Nat → List Nat) {s s' : St} {v : Nat} {ch : List Root}
+    (h : finalize s v ch = .ok s') (r : Root) (hv : r.ver = v) (he : s.earliest ≤ v) :
+    readable cl s' r =
+      (readable cl s r &&
+        (r.hash == 0 || (cl r.hash).all (fun x => !(finPlan s v (chosenTH ch)).dels.contains x))) := by
+  rw [(bfinalize_ok_inv h).2]
+  unfold readable
+  by_cases h0 : (r.hash == 0) = true
+  · simp [h0]
+  · simp only [h0, Bool.false_or]
+    rw [← all_and]
+    apply List.all_congr rfl
+    intro x
+    unfold nodeVisible
+    have e1 : decide ((finalizeSt s v ch).earliest ≤ r.ver) = true := by
+      simp only [finalizeSt]; split <;> simp <;> omega
+    have e2 : decide (s.earliest ≤ r.ver) = true := by simp; omega
+    rw [e1, e2]
+    have : (finalizeSt s v ch).node.live x r.ver =
+        (if x ∈ (finPlan s v (chosenTH ch)).dels then false else s.node.live x r.ver) := by
+      rw [hv]; simp only [finalizeSt]; exact live_writeAll_false_at _ _ _ _
+    rw [this]
+    have hrn : (finalizeSt s v ch).rootNode = s.rootNode := rfl
+    rw [hrn]
+    by_cases hx : x ∈ (finPlan s v (chosenTH ch)).dels
+    · simp [hx]
+    · simp [hx]
+
+/-- Sufficient condition: a root of version `v` all of whose nodes are outside the deleted set
+stays readable through `Finalize(v)`. -/
+theorem finalize_preserves_readable_of_disjoint (cl : Nat → List Nat) {s s' : St} {v : Nat} {ch : List Root}
+    (h : finalize s v ch = .ok s') (r : Root) (hv : r.ver = v) (he : s.earliest ≤ v)
+    (hread : readable cl s r = true)
+    (hdis : ∀ x ∈ cl r.hash, x ∉ (finPlan s v (chosenTH ch)).dels) :
+    readable cl s' r = true := by
+  rw [finalize_readable_iff cl h r hv he, hread]
+  simp only [Bool.true_and, Bool.or_eq_true, List.all_eq_true]
+  right
+  intro x hx
+  simpa using hdis x hx
+
+/-! ### prune_exact for the badger model -/
+
+theorem getMeta_cons (l : List (Nat × RootsMeta)) (v : Nat) (a : RootsMeta) (w : Nat) :
+    getMeta ((v, a) :: l) w = if v = w then a else getMeta l w := by
+  simp [getMeta]
+
+theorem hasRoot_eq (s : St) (r : Root) :
+    hasRoot s r = (r.hash == 0 || (decide (s.earliest ≤ r.ver) && hasKey (s.rmeta r.ver) (r.typ, r.hash))) := rfl
+
+/-- **prune_exact (badger model).** A successful `Prune(v)` is only accepted for the earliest,
+finalized, non-last version; afterwards version `v` reports no roots, the roots metadata of every
+other version is untouched, the window starts at `v+1`, and the only data writes are tombstones
+at timestamp `v` on the node keys in `pruneDels` (and on the root-node keys of the lone roots):
+nothing an earlier-timestamp reader or a reader of any other key sees changes. -/
+theorem badger_prune_exact (cl clv : Nat → List Nat) {s s' : St} {v : Nat} (h : prune cl clv s v = .ok s') :
+    s.earliest = v ∧ (∃ l, s.last = some l ∧ v < l) ∧
+    s'.earliest = v + 1 ∧ s'.last = s.last ∧
+    s'.rmeta v = [] ∧ (∀ w, w ≠ v → s'.rmeta w = s.rmeta w) ∧
+    (∀ r : Root, r.ver = v → r.hash ≠ 0 → hasRoot s' r = false) ∧
+    (∀ r : Root, v < r.ver → hasRoot s' r = hasRoot s r) ∧
+    (∀ k t, k ∉ pruneDels clv s v → s'.node.get k t = s.node.get k t) := by
+  obtain ⟨he, hs'⟩ := bprune_ok_inv h
+  obtain ⟨hl, hearl, _⟩ := bpruneErr_none he
+  subst hs'
+  refine ⟨hearl.symm, hl, rfl, rfl, ?_, ?_, ?_, ?_, ?_⟩
+  · simp [pruneSt, St.rmeta, getMeta_cons]
+  · intro w hw
+    have : ¬ v = w := fun e => hw e.symm
+    simp [pruneSt, St.rmeta, getMeta_cons, this]
+  · intro r hr h0
+    have : decide (v + 1 ≤ r.ver) = false := by simp; omega
+    have e : (pruneSt clv s v).earliest = v + 1 := rfl
+    rw [hasRoot_eq, e, this]
+    simp [h0]
+  · intro r hr
+    have hne : ¬ v = r.ver := by omega
+    have h1 : decide (v + 1 ≤ r.ver) = true := by simp; omega
+    have h2 : decide (s.earliest ≤ r.ver) = true := by simp; omega
+    have e : (pruneSt clv s v).earliest = v + 1 := rfl
+    have e2 : (pruneSt clv s v).rmeta r.ver = s.rmeta r.ver := by
+      simp [pruneSt, St.rmeta, getMeta_cons, hne]
+    rw [hasRoot_eq, hasRoot_eq, e, e2, h1, h2]
+  · intro k t hk
+    exact get_writeAll_notin _ _ _ _ _ _ hk
+
+/-! ### the unconditional statement is false for the model (and for the real backend)
+
+Node hashes: 10 = root of version 1 with children 1 (leaf a) and 2 (leaf b);
+11 = root of version 2 with children 1, 2 and 3 (leaf c); the discarded candidate of version 2
+is the one-leaf tree {a}, whose root node is the leaf 1 itself. -/
+
+def cexCl : Nat → List Nat
+  | 10 => [10, 1, 2]
+  | 11 => [11, 1, 2, 3]
+  | 1 => [1]
+  | n => [n]
+
+def okOr (e : Except Err St) (d : St) : St := match e with | .ok s => s | .error _ => d
+def isOk (e : Except Err St) : Bool := match e with | .ok _ => true | .error _ => false
+def errOf (e : Except Err St) : Option Err := match e with | .ok _ => none | .error x => some x
+
+theorem isOk_eq {e : Except Err St} {d : St} (h : isOk e = true) : e = .ok (okOr e d) := by
+  cases e with
+  | ok s => rfl
+  | error x => simp [isOk] at h
+
+/-- version 1: root 10 = {a,b} committed from nothing and finalized;
+version 2: candidate g = {a} committed from nothing (re-creates leaf 1), candidate 11 = {a,b,c}
+derived from 10 (inherits leaves 1 and 2, puts 11 and 3, removes 10). -/
+def cexBeforeFinalize : St :=
+  let s0 := Badger.init
+  let s1 := okOr (commit s0 ⟨1, 0, 0⟩ ⟨1, 0, 10⟩ [1, 2, 10] []) s0
+  let s2 := okOr (finalize s1 1 [⟨1, 0, 10⟩]) s1
+  let s3 := okOr (commit s2 ⟨2, 0, 0⟩ ⟨2, 0, 1⟩ [1] []) s2
+  okOr (commit s3 ⟨1, 0, 10⟩ ⟨2, 0, 11⟩ [3, 11] [10]) s3
+
+/-- **Finalize can destroy the root it finalizes.** Every operation of the history succeeds,
+candidate 11 is readable before `Finalize(2, [11])`, the finalize succeeds, reports 11 as the
+root of version 2 — and 11 is no longer readable: leaf 1, inherited from version 1, was put again
+by the discarded candidate, so it is in `maybeLone`, not in `notLone`, and is deleted at the
+timestamp of version 2. (Real badger backend: same history, corpus/C06/dbdrv-d3-*.txt.) -/
+theorem finalize_can_destroy_finalized_root :
+    readable cexCl cexBeforeFinalize ⟨2, 0, 11⟩ = true ∧
+    (∃ s', finalize cexBeforeFinalize 2 [⟨2, 0, 11⟩] = .ok s' ∧
+      hasRoot s' ⟨2, 0, 11⟩ = true ∧ readable cexCl s' ⟨2, 0, 11⟩ = false ∧
+      readable cexCl s' ⟨1, 0, 10⟩ = true) := by
+  refine ⟨by decide, okOr (finalize cexBeforeFinalize 2 [⟨2, 0, 11⟩]) Badger.init, isOk_eq (by decide), by decide, by decide, by decide⟩
+
+/-- version 1: state root 10 = {a,b} and io root 20 = {a,x} (children 1 and 4) share leaf 1, both
+finalized; version 2: state root 11 derived from 10, finalized. -/
+def cexCl2 : Nat → List Nat
+  | 10 => [10, 1, 2]
+  | 11 => [11, 1, 2, 3]
+  | 20 => [20, 1, 4]
+  | n => [n]
+
+def cexBeforePrune : St :=
+  let s0 := Badger.init
+  let s1 := okOr (commit s0 ⟨1, 0, 0⟩ ⟨1, 0, 10⟩ [1, 2, 10] []) s0
+  let s2 := okOr (commit s1 ⟨1, 1, 0⟩ ⟨1, 1, 20⟩ [1, 4, 20] []) s1
+  let s3 := okOr (finalize s2 1 [⟨1, 0, 10⟩, ⟨1, 1, 20⟩]) s2
+  let s4 := okOr (commit s3 ⟨1, 0, 10⟩ ⟨2, 0, 11⟩ [3, 11] [10]) s3
+  okOr (finalize s4 2 [⟨2, 0, 11⟩]) s4
+
+/-- **Pruning an older version can destroy a retained finalized root.** The io root of version 1
+has no derived root, so `Prune(1)` visits it and deletes every node whose visible item was
+written in version 1 — including leaf 1, which the finalized state root of version 2 inherits.
+(Real badger backend: same history, corpus/C06/dbdrv-d1-*.txt.) -/
+theorem prune_can_destroy_later_finalized_root :
+    readable cexCl2 cexBeforePrune ⟨2, 0, 11⟩ = true ∧
+    (∃ s', prune cexCl2 cexCl2 cexBeforePrune 1 = .ok s' ∧
+      hasRoot s' ⟨2, 0, 11⟩ = true ∧ s'.last = some 2 ∧ s'.earliest = 2 ∧
+      readable cexCl2 s' ⟨2, 0, 11⟩ = false) := by
+  refine ⟨by decide, okOr (prune cexCl2 cexCl2 cexBeforePrune 1) Badger.init, isOk_eq (by decide), by decide, by decide, by decide, by decide⟩
+
+/-- **A finalized empty root of the io type blocks pruning for good**: `Visit` of the lone empty
+root asks for the node with the empty hash, which is never stored. -/
+theorem prune_fails_on_lone_empty_root :
+    let s0 := Badger.init
+    let s1 := okOr (commit s0 ⟨1, 0, 0⟩ ⟨1, 0, 10⟩ [1, 2, 10] []) s0
+    let s2 := okOr (commit s1 ⟨1, 1, 0⟩ ⟨1, 1, 0⟩ [] []) s1
+    let s3 := okOr (finalize s2 1 [⟨1, 0, 10⟩, ⟨1, 1, 0⟩]) s2
+    let s4 := okOr (commit s3 ⟨1, 0, 10⟩ ⟨2, 0, 11⟩ [3, 11] [10]) s3
+    let s5 := okOr (finalize s4 2 [⟨2, 0, 11⟩]) s4
+    s5.last = some 2 ∧ s5.earliest = 1 ∧ errOf (prune cexCl cexCl s5 1) = some .nodeNotFound := by
+  decide
+
+end BadgerThms
+
+/-! ## Part C — the ABCI pruner arithmetic (`abci/prune.go:117-200`) -/
+section PrunerThms
+open Pruner
+
+theorem loop_spec (pf : Nat) (veto : Nat → Bool) (db : Nat → DbRes) (latest : Nat) (hpf : pf ≤ latest) :
+    ∀ (n i e : Nat) (pr ak : List Nat), i + n = latest + 1 → (i ≤ pf ∨ pr = []) →
+      (∀ v ∈ pr, v < i) → (∀ v ∈ ak, v < pf ∧ veto v = false) → (∀ v ∈ pr, v ∈ ak) →
+      (∀ v ∈ (loop pf veto db n i e pr ak).2.2.1, v < pf ∧ veto v = false) ∧
+      (∀ v ∈ (loop pf veto db n i e pr ak).2.1, v ∈ (loop pf veto db n i e pr ak).2.2.1) ∧
+      ((loop pf veto db n i e pr ak).2.2.2 = false →
+        ∀ v ∈ (loop pf veto db n i e pr ak).2.1, v < (loop pf veto db n i e pr ak).1) := by
+  intro n
+  induction n with
+  | zero =>
+    intro i e pr ak hin hor hpr hak hsub
+    simp only [loop]
+    refine ⟨hak, hsub, ?_⟩
+    intro _ v hv
+    rcases hor with h | h
+    · omega
+    · subst h; simp at hv
+  | succ n ih =>
+    intro i e pr ak hin hor hpr hak hsub
+    simp only [loop]
+    by_cases h1 : i ≥ pf
+    · simp only [h1, if_true]
+      exact ⟨hak, hsub, fun _ v hv => hpr v hv⟩
+    · simp only [h1, if_false]
+      by_cases h2 : veto i = true
+      · simp only [h2, if_true]
+        exact ⟨hak, hsub, fun _ v hv => hpr v hv⟩
+      · simp only [h2]
+        have hak' : ∀ v ∈ ak ++ [i], v < pf ∧ veto v = false := by
+          intro v hv
+          rcases List.mem_append.1 hv with hv | hv
+          · exact hak v hv
+          · simp at hv; subst hv; exact ⟨by omega, by simpa using h2⟩
+        cases hdb : db i with
+        | ok =>
+          simp only
+          apply ih (i + 1) e (pr ++ [i]) (ak ++ [i]) (by omega) (Or.inl (by omega))
+          · intro v hv
+            rcases List.mem_append.1 hv with hv | hv
+            · have := hpr v hv; omega
+            · simp at hv; omega
+          · exact hak'
+          · intro v hv
+            rcases List.mem_append.1 hv with hv | hv
+            · exact List.mem_append_left _ (hsub v hv)
+            · exact List.mem_append_right _ hv
+        | notEarliest =>
+          simp only
+          apply ih (i + 1) e pr (ak ++ [i]) (by omega) (Or.inl (by omega))
+          · intro v hv; have := hpr v hv; omega
+          · exact hak'
+          · intro v hv; exact List.mem_append_left _ (hsub v hv)
+        | fail =>
+          simp only
+          exact ⟨hak', fun v hv => List.mem_append_left _ (hsub v hv), fun h => by simp at h⟩
+
+/-- **pruner_keeps_last_n.** Whatever the handlers and the database answer, one call of the
+pruner only ever asks the database to prune versions `v` with `v + keepN < latest` — the last
+`keepN` versions before `latest` (and `latest` itself) are never pruned — and never a version a
+prune handler vetoed. -/
+theorem pruner_keeps_last_n (keepN latest dbE : Nat) (veto : Nat → Bool) (db : Nat → DbRes) (p : PSt) :
+    ∀ v ∈ (prune keepN latest dbE veto db p).asked, v + keepN < latest ∧ veto v = false := by
+  intro v hv
+  unfold prune at hv
+  by_cases h0 : latest < keepN
+  · simp [h0] at hv
+  · simp only [h0, if_false] at hv
+    generalize hp1 : (if p.earliest = 0 then ({ earliest := dbE, lastRetained := dbE } : PSt) else p) = p1 at hv
+    by_cases h1 : p1.earliest = 0
+    · simp [h1] at hv
+    · simp only [h1, if_false] at hv
+      have hs := loop_spec (latest - keepN) veto db latest (by omega) (latest + 1 - p1.earliest)
+        p1.earliest p1.earliest [] []
+      by_cases hle : p1.earliest ≤ latest + 1
+      · have := (hs (by omega) (Or.inr rfl) (by simp) (by simp) (by simp)).1
+        split at hv
+        · have := this v hv; exact ⟨by omega, this.2⟩
+        · have := this v hv; exact ⟨by omega, this.2⟩
+      · have hz : latest + 1 - p1.earliest = 0 := by omega
+        rw [hz] at hv
+        simp [loop] at hv
+
+/-- **last_retained_le_needed.** After a successful call everything the database pruned lies
+strictly below the version the pruner reports as last retained (block history below it may be
+discarded), and after a failed call the reported version has not moved. -/
+theorem pruner_last_retained_sound (keepN latest dbE : Nat) (veto : Nat → Bool) (db : Nat → DbRes) (p : PSt) :
+    let o := prune keepN latest dbE veto db p
+    (o.err = false → ∀ v ∈ o.pruned, v < o.st.lastRetained) ∧
+    (o.err = true → o.st.lastRetained = (if p.earliest = 0 then dbE else p.lastRetained)) ∧
+    (∀ v ∈ o.pruned, v ∈ o.asked) := by
+  simp only
+  unfold prune
+  by_cases h0 : latest < keepN
+  · simp [h0]
+  · simp only [h0, if_false]
+    generalize hp1 : (if p.earliest = 0 then ({ earliest := dbE, lastRetained := dbE } : PSt) else p) = p1
+    have hlr : p1.lastRetained = (if p.earliest = 0 then dbE else p.lastRetained) := by
+      rw [← hp1]; split <;> rfl
+    by_cases h1 : p1.earliest = 0
+    · simp [h1]
+    · simp only [h1, if_false]
+      have hs := loop_spec (latest - keepN) veto db latest (by omega) (latest + 1 - p1.earliest)
+        p1.earliest p1.earliest [] []
+      by_cases hle : p1.earliest ≤ latest + 1
+      · obtain ⟨_, hsub, hlt⟩ := hs (by omega) (Or.inr rfl) (by simp) (by simp) (by simp)
+        split
+        · rename_i herr
+          exact ⟨by simp, fun _ => hlr, hsub⟩
+        · rename_i herr
+          refine ⟨fun _ => hlt (by simpa using herr), by simp, hsub⟩
+      · have hz : latest + 1 - p1.earliest = 0 := by omega
+        rw [hz]
+        simp [loop]
+
+end PrunerThms
+
+/-! ## Non-vacuity: the hypotheses of the theorems hold on concrete non-trivial states -/
+section NonVacuity
+
+/-- `spec_readable_inv`: a reachable state with a finalized, readable root, and a continuation
+(a competing commit, a finalization that discards it, a prune of the older version). -/
+example :
+    let s := Spec.run Spec.init
+      [.commit ⟨1, 0, 0⟩ ⟨1, 0, 5⟩ "a=1", .finalize 1 [⟨1, 0, 5⟩] [⟨1, 0, 5⟩],
+       .commit ⟨1, 0, 5⟩ ⟨2, 0, 6⟩ "a=1;b=2", .commit ⟨1, 0, 5⟩ ⟨2, 0, 7⟩ "a=2",
+       .finalize 2 [⟨2, 0, 6⟩] [⟨2, 0, 6⟩]]
+    (⟨2, 0, 6⟩ : Root) ∈ s.fin ∧ Spec.lookup s ⟨2, 0, 6⟩ = some "a=1;b=2" ∧
+    Spec.isPresent s ⟨2, 0, 7⟩ = false ∧
+    (match Spec.prune s 1 with | .ok s' => s'.earliest == 2 | .error _ => false) = true := by
+  decide
+
+/-- `finalize_readable_iff` / `badger_prune_exact`: successful Finalize and Prune on a state with
+several roots (taken from the counterexample histories). -/
+example : isOk (Badger.finalize cexBeforeFinalize 2 [⟨2, 0, 11⟩]) = true ∧
+    cexBeforeFinalize.earliest ≤ 2 ∧ isOk (Badger.prune cexCl2 cexCl2 cexBeforePrune 1) = true := by
+  decide
+
+/-- `finalize_preserves_readable_of_disjoint`: finalizing the *other* candidate of the
+counterexample (the fresh one-leaf tree) deletes nothing that tree needs. -/
+example : (∀ x ∈ cexCl 1, x ∉ (Badger.finPlan cexBeforeFinalize 2 (Badger.chosenTH [⟨2, 0, 1⟩])).dels) ∧
+    Badger.readable cexCl cexBeforeFinalize ⟨2, 0, 1⟩ = true := by
+  decide
+
+/-- pruner: with keepN = 2, latest = 10, database earliest 1 and nothing vetoed, versions 1..7
+are pruned and 8 is reported as last retained. -/
+example : (Pruner.prune 2 10 1 (fun _ => false) (fun _ => .ok) ⟨0, 0⟩).asked = [1, 2, 3, 4, 5, 6, 7] ∧
+    (Pruner.prune 2 10 1 (fun _ => false) (fun _ => .ok) ⟨0, 0⟩).st = ⟨8, 8⟩ ∧
+    (Pruner.prune 2 10 1 (fun v => v == 4) (fun _ => .ok) ⟨0, 0⟩).st = ⟨4, 4⟩ := by
+  decide
+
+end NonVacuity
 
 end OasisProofs.C06
